@@ -22,6 +22,14 @@ KNOWN_FILE = os.path.join(VERIF, "known_findings.json")
 NPROC = int(os.environ.get("VERIF_NPROC", "16"))
 
 
+def _deep_update(dst, src):
+    for k, v in src.items():
+        if isinstance(v, dict) and isinstance(dst.get(k), dict):
+            _deep_update(dst[k], v)
+        else:
+            dst[k] = v
+
+
 class Result:
     """What one task (or a merged run) covered."""
 
@@ -66,7 +74,7 @@ class Result:
             if isinstance(v, list):
                 self.extra.setdefault(k, []).extend(v)
             elif isinstance(v, dict):
-                self.extra.setdefault(k, {}).update(v)
+                _deep_update(self.extra.setdefault(k, {}), v)
             else:
                 self.extra[k] = v
 
